@@ -59,6 +59,7 @@ class Registry(object):
         self.globals = {}                            # module -> {name: Ty}
         self.sorts = {}                              # name -> Ty  (usable in forall(x, Name, ..))
         self.specfuns = {}                           # name -> (params OrderedDict, returns, body str | None)
+        self.inst_axioms = {}                        # name -> [(param names, axiom text)]
         self.axioms = []                             # spec-level axioms (strings, closed)
         self.exc_attrs = {}                          # (ExcClass, attr) -> Ty
         self.exc_files = []                          # files whose class statements define exceptions
@@ -106,8 +107,12 @@ class Registry(object):
     def sort(self, **names):
         self.sorts.update(names)
 
-    def specfun(self, name, params=None, returns=core.BOOL, body=None):
+    def specfun(self, name, params=None, returns=core.BOOL, body=None, inst_axioms=()):
+        """inst_axioms: [(param names, axiom text)] - an axiom schema instantiated once per distinct value of the named
+        parameters met in a call (used for unfolding recursive spec functions without quantifying over container sorts)."""
         self.specfuns[name] = (collections.OrderedDict(params or {}), returns, body)
+        if inst_axioms:
+            self.inst_axioms[name] = list(inst_axioms)
 
     def axiom(self, text):
         self.axioms.append(text)
@@ -117,7 +122,7 @@ class Registry(object):
 
     def merge(self, other):
         for k in ("contracts", "methods", "ifaces", "classes", "pyclass", "externals", "sorts", "specfuns",
-                  "exc_attrs", "exc_extra", "consts"):
+                  "exc_attrs", "exc_extra", "consts", "inst_axioms"):
             getattr(self, k).update(getattr(other, k))
         for m, d in other.globals.items():
             self.globals.setdefault(m, {}).update(d)
